@@ -52,6 +52,8 @@ pub struct C13World {
     pub jdirs: Vec<String>,
     /// (var, path as given) of --ext-code-file arguments
     pub ext_files: Vec<(String, String)>,
+    /// (var, import spelling) of --ext-code arguments whose text is `{ tf: std.thisFile, m: import "<spelling>" }`
+    pub ext_codes: Vec<(String, String)>,
 }
 
 fn module_text(id: &str, deps: &mut [Dep], lazy: Option<&str>, unused: Option<&str>) -> String {
@@ -111,9 +113,9 @@ pub fn gen_world(seed: u64) -> C13World {
     for d in &jdirs {
         dirs.push(d.clone());
     }
-    if main_dir.as_deref() == Some(".") {
-        dirs.push(".".into());
-    }
+    // copies may also sit in the working directory itself: the importer directory of a bare-file-name main, and
+    // otherwise decoys that nothing may reach (virtual sources have NO importer directory: only -J applies)
+    dirs.push(".".into());
     for d in &dirs {
         if d != "." {
             tree.push((d.clone(), Entry::Dir));
@@ -227,6 +229,12 @@ pub fn gen_world(seed: u64) -> C13World {
                 }
                 2 => deps.push(Dep { field, kind: DepKind::ImportStr, spelling: spell(r, NAMES[NAMES.len() - 1], dir, &jdirs, &copies), line: 0, col: 0 }),
                 3 if is_main && ext_var.is_some() => deps.push(Dep { field, kind: DepKind::Ext(ext_var.as_ref().unwrap().0.clone()), spelling: String::new(), line: 0, col: 0 }),
+                4 if is_main && first < NAMES.len() => {
+                    // code given on the command line that imports: a virtual importer (only -J and absolute paths apply)
+                    let n = NAMES[first + r.usize_below(NAMES.len() - first)];
+                    let var = format!("xc{k}");
+                    deps.push(Dep { field, kind: DepKind::Ext(var), spelling: spell(r, n, None, &jdirs, &copies), line: 1, col: 24 })
+                }
                 _ => {
                     if first < NAMES.len() {
                         let n = NAMES[first + r.usize_below(NAMES.len() - first)];
@@ -299,9 +307,19 @@ pub fn gen_world(seed: u64) -> C13World {
         argv.push(if r.chance(1, 3) { "--jpath".into() } else { "-J".into() });
         argv.push(j.clone());
     }
+    let mut ext_codes: Vec<(String, String)> = Vec::new();
+    for d in &main.deps {
+        if let DepKind::Ext(var) = &d.kind {
+            if var.starts_with("xc") {
+                argv.push("--ext-code".into());
+                argv.push(format!("{var}={{ tf: std.thisFile, m: import \"{}\" }}", d.spelling));
+                ext_codes.push((var.clone(), d.spelling.clone()));
+            }
+        }
+    }
     let mut ext_files = Vec::new();
     if let Some((var, path)) = &ext_var {
-        if main.deps.iter().any(|d| matches!(&d.kind, DepKind::Ext(_))) || r.chance(1, 2) {
+        if main.deps.iter().any(|d| matches!(&d.kind, DepKind::Ext(v) if !v.starts_with("xc"))) || r.chance(1, 2) {
             argv.push("--ext-code-file".into());
             argv.push(format!("{var}={path}"));
             ext_files.push((var.clone(), path.clone()));
@@ -324,7 +342,7 @@ pub fn gen_world(seed: u64) -> C13World {
         }
     }
     // an ext var that is referenced but whose argument was not given would be a different error; keep consistent
-    C13World { world: World { tree, argv, env: vec![("NO_COLOR".into(), "1".into())], stdin, stdout: StdoutKind::File }, modules, main, main_kind, jdirs, ext_files }
+    C13World { world: World { tree, argv, env: vec![("NO_COLOR".into(), "1".into())], stdin, stdout: StdoutKind::File }, modules, main, main_kind, jdirs, ext_files, ext_codes }
 }
 
 // ---------------------------------------------------------------------------
@@ -468,6 +486,26 @@ impl Model<'_> {
         for d in &m.deps {
             let site = self.site(&m.id, reprs, d);
             let v = match &d.kind {
+                DepKind::Ext(var) if var.starts_with("xc") => {
+                    // `{ tf: std.thisFile, m: import "<spelling>" }` evaluated as the virtual file <ext:var>
+                    let vrepr = vec![format!("<ext:{var}>")];
+                    let vsite = Site { importer_ids: format!("<ext:{var}>"), importer_reprs: vrepr.clone(), line: 1, col: 24, spelling: d.spelling.clone() };
+                    match self.resolve(None, &d.spelling) {
+                        None => {
+                            if !self.dry {
+                                self.p.failing_sites.push(vsite);
+                            }
+                            None
+                        }
+                        Some(chosen) => {
+                            if let (false, Some((_, rel))) = (self.dry, self.rel_canon(&chosen)) {
+                                self.p.sites_by_file.entry(rel).or_default().push(vsite);
+                            }
+                            bump(&mut self.p.probes, "import_from_ext_code_text");
+                            self.module(&chosen).map(|m| Json::Obj(vec![("m".to_string(), m), ("tf".to_string(), Json::Str(format!("<ext:{var}>")))]))
+                        }
+                    }
+                }
                 DepKind::Ext(var) => {
                     let path = self.w.ext_files.iter().find(|(v, _)| v == var).map(|(_, p)| p.clone());
                     match path {
@@ -652,6 +690,9 @@ fn eval_counts(stderr: &str) -> BTreeMap<String, u32> {
 }
 
 fn all_reprs(w: &C13World, pred: &Predicted, root: &str, id: &str) -> Vec<String> {
+    if id.starts_with("<ext:") {
+        return vec![id.to_string()];
+    }
     let mut v: Vec<String> = pred.instances.get(id).cloned().unwrap_or_default();
     v.extend(pred.extra_paths.get(id).cloned().unwrap_or_default());
     // a module given as --ext-code-file is loaded by that path before any import of it
@@ -879,6 +920,7 @@ pub fn world_to_json(w: &C13World, plan: &[Rule]) -> Json {
             ("main_kind", Json::str(match &w.main_kind { MainKind::File(p) => format!("file:{p}"), MainKind::Exec => "exec".into(), MainKind::Stdin => "stdin".into() })),
             ("jdirs", Json::Arr(w.jdirs.iter().map(Json::str).collect())),
             ("ext_files", Json::Arr(w.ext_files.iter().map(|(v, p)| Json::Arr(vec![Json::str(v), Json::str(p)])).collect())),
+            ("ext_codes", Json::Arr(w.ext_codes.iter().map(|(v, p)| Json::Arr(vec![Json::str(v), Json::str(p)])).collect())),
         ]),
     ));
     Json::Obj(f)
@@ -912,6 +954,7 @@ pub fn world_from_json(j: &Json) -> Option<(C13World, Vec<Rule>)> {
             main_kind,
             jdirs: m.get("jdirs")?.as_arr()?.iter().filter_map(|s| s.as_str().map(String::from)).collect(),
             ext_files: m.get("ext_files")?.as_arr()?.iter().filter_map(|e| { let a = e.as_arr()?; Some((a.first()?.as_str()?.to_string(), a.get(1)?.as_str()?.to_string())) }).collect(),
+            ext_codes: m.get("ext_codes").and_then(|x| x.as_arr()).map(|a| a.iter().filter_map(|e| { let a = e.as_arr()?; Some((a.first()?.as_str()?.to_string(), a.get(1)?.as_str()?.to_string())) }).collect()).unwrap_or_default(),
         },
         plan,
     ))
